@@ -939,6 +939,9 @@ pub struct FunctionInfo {
     /// Whether this is an arrow function
     pub is_arrow: bool,
 
+    /// Whether this is the constructor of a class (it can only be invoked with `new` / `super`)
+    pub is_class_constructor: bool,
+
     /// Whether function uses `arguments`
     pub uses_arguments: bool,
 
@@ -1009,6 +1012,7 @@ impl FunctionInfo {
             is_generator: false,
             is_async: false,
             is_arrow: false,
+            is_class_constructor: false,
             uses_arguments: false,
             uses_this: false,
             param_names: Vec::new(),
@@ -1025,6 +1029,7 @@ impl FunctionInfo {
             is_generator: false,
             is_async: false,
             is_arrow: true,
+            is_class_constructor: false,
             uses_arguments: false,
             uses_this: false,
             param_names: Vec::new(),
@@ -1041,6 +1046,7 @@ impl FunctionInfo {
             is_generator: true,
             is_async: false,
             is_arrow: false,
+            is_class_constructor: false,
             uses_arguments: false,
             uses_this: false,
             param_names: Vec::new(),
@@ -1057,6 +1063,7 @@ impl FunctionInfo {
             is_generator: false,
             is_async: true,
             is_arrow: false,
+            is_class_constructor: false,
             uses_arguments: false,
             uses_this: false,
             param_names: Vec::new(),
